@@ -75,7 +75,7 @@ fn run_history(p: &Pool, policy: Policy, hist: &[(usize, usize)], expected: &[Ve
 fn add_failure_injection(p: &mut Pool, r: &mut crate::rng::Rng) {
     let designed = concat!(
         "{% capture cap %}head-{{ tagv }}{% if fail == 'capture' %}{{ nope }}{% endif %}-tail{% endcapture %}[{{ cap }}]",
-        "{% for i in (1..3) %}{% cycle 'z': 1, 2, 3 %}{% increment cnt %}{% ifchanged %}{{ i }}{% endifchanged %}",
+        "{% for i in (1..3) %}{% cycle 'z': 1, 2, 3 %}{% increment cnt %}{% ifchanged %}ic{{ i }}{% if i == 2 and fail == 'ifchanged' %}{{ nope }}{% endif %}{% endifchanged %}",
         "{% if i == 2 and fail == 'loop' %}{{ nope }}{% endif %}{% if i == 3 %}{% break %}{% endif %}{% endfor %}",
         "{% for i in (1..2) %}{% tablerow j in (1..2) %}{% if j == 2 and fail == 'after-break' %}{{ nope }}{% endif %}",
         "{% if j == 1 and fail == 'after-break' %}{% break %}{% endif %}c{% endtablerow %}{% endfor %}",
@@ -85,7 +85,7 @@ fn add_failure_injection(p: &mut Pool, r: &mut crate::rng::Rng) {
     p.partials.push(("pg0".into(), "(g0:{{ tagv }})".into()));
     p.partials.push(("pg1".into(), "(g1:{% increment cnt %})".into()));
     p.mains.push(designed.to_string());
-    let modes = ["none", "capture", "loop", "after-break", "partial"];
+    let modes = ["none", "capture", "loop", "after-break", "partial", "ifchanged"];
     for (k, d) in p.datas.iter_mut().enumerate() {
         if let crate::val::RVal::Object(kv) = d {
             let mode = if k == 1 { "none" } else { r.choose(&modes) };
